@@ -337,6 +337,24 @@ fn leaf_goal(s: &mut dyn Src, cx: &GenCtx, m: &mut Mode) -> Goal {
                 }
                 1 => Goal::Nl,
                 _ => {
+                    // one in five: a list whose tail is bound to a list whose tail is bound again, two to four links
+                    // ($P1 = [a | $P2], $P2 = [b | $P3], $P3 = [c], print_list($P1)) - what a recursive predicate builds
+                    if chance(s, 1, 5) {
+                        let links = 2 + s.draw(3) as usize;
+                        let tag = s.draw(1000);
+                        let name = |i: usize| format!("$P{}x{}", tag, i);
+                        let mut goals = vec![];
+                        let order_back = chance(s, 1, 2);
+                        for i in 0..links {
+                            let e = ground_operand(s, m);
+                            let l = if i + 1 < links { Term::List(vec![e], Some(Box::new(Term::Var(name(i + 1))))) } else { Term::List(vec![e], None) };
+                            goals.push(Goal::Unify(Term::Var(name(i)), l));
+                        }
+                        if order_back { goals.reverse(); }
+                        let first = if chance(s, 1, 2) { Term::Var(name(0)) } else { Term::List(vec![ground_operand(s, m)], Some(Box::new(Term::Var(name(0))))) };
+                        goals.push(Goal::BuiltIn("print_list".into(), vec![first]));
+                        return Goal::And(goals);
+                    }
                     // mostly one list; sometimes further list / non-list arguments in any order
                     let n = 1 + weighted(s, &[4, 2, 1]);
                     let mut args = vec![];
